@@ -1,4 +1,4 @@
-import VyxalModel.Lemmas.Sim
+import VyxalModel.Lemmas.CoreSim
 import VyxalModel.Proofs.C05
 /-!
 # Token-level simulation lemmas and the structural induction for the closure-free fragment (C01, stage 2)
@@ -28,14 +28,6 @@ theorem digits_parts (ds : Str) (hne : ds ≠ []) (hd : ds.all isDigit = true) :
 theorem eval_nsimplify (cfg : Cfg) (n : Nat) (ds : Str) (π : PSt) (hne : ds ≠ []) (hd : ds.all isDigit = true) :
     evalE cfg n (.call (.attr (.name "sympy") "nsimplify") [.cstrN ds] []) π = .ok (.int (natOfDigits ds), π) := by
   simp [evalE, hne, hd]
-
-/-- printing keeps the relation -/
-theorem Rel.print {σ : RSt} {π : PSt} (h : Rel σ π) (s : String) : Rel (σ.print s) (π.print s) :=
-  ⟨h.d0, h.params, h.pd0, h.stack, h.ctxVals, h.inputs, h.register, h.ghost, by simp [RSt.print, PSt.print, h.out],
-   by simp [RSt.print, PSt.print], h.retain, h.useTop, h.vars, h.clean⟩
-
-theorem Rel.setRegister {σ : RSt} {π : PSt} (h : Rel σ π) (v : Val) : Rel { σ with register := v } { π with register := v } :=
-  ⟨h.d0, h.params, h.pd0, h.stack, h.ctxVals, h.inputs, rfl, h.ghost, h.out, h.printed, h.retain, h.useTop, h.vars, h.clean⟩
 
 /-- what a table entry must look like for the parametric element lemma -/
 def elemOK (e : Gen.Entry) : Bool :=
@@ -92,6 +84,12 @@ theorem sim_elem {σ : RSt} {π : PSt} (cfg : Cfg) (n : Nat) (key : Str) (e : Ge
 
 
 
+/-- a hand-written template of the closed core, as expected -/
+def coreEntryOK (key : Str) (e : Gen.Entry) : Bool :=
+  e.kind != "fn" && (match key, e.body with
+    | [c], some b => isCoreTmpl c b
+    | _, _ => false)
+
 def frag2Tok (tbl : List Gen.Entry) (t : Token) : Bool :=
   match t.kind with
   | .number => true
@@ -99,7 +97,7 @@ def frag2Tok (tbl : List Gen.Entry) (t : Token) : Bool :=
   | .vset => true
   | .general => (match lookupElem tbl t.value with
       | Option.none => true
-      | some e => elemOK e)
+      | some e => elemOK e || coreEntryOK t.value e)
   | _ => false
 
 theorem exec_pass (cfg : Cfg) (n : Nat) (π : PSt) : execPL cfg n [.pass] π = .ok (.normal, π) := by
@@ -137,7 +135,22 @@ theorem sim_tok {σ : RSt} {π : PSt} (cfg : Cfg) (env : TEnv) (hE : cfg.element
       | none => simp [hb] at ht
       | some b =>
         simp [hb] at ht; subst ht
-        exact sim_elem cfg n t.value e b hl hf hb h sg σ' hr
+        by_cases hok : elemOK e = true
+        · exact sim_elem cfg n t.value e b hl hok hb h sg σ' hr
+        · have hco : coreEntryOK t.value e = true := by
+            cases hh : elemOK e with
+            | true => exact absurd hh hok
+            | false => simpa [hh] using hf
+          unfold coreEntryOK at hco
+          simp only [Bool.and_eq_true, bne_iff_ne, ne_eq] at hco
+          obtain ⟨hkind, hcb⟩ := hco
+          unfold execElem at hr
+          simp only [hl, hkind, ↓reduceIte] at hr
+          match hv : t.value, hcb with
+          | [c], hcb =>
+            rw [hb] at hcb
+            simp only [hv, keyCh] at hr
+            exact sim_core cfg n c b hcb h sg hr
   case vget =>
     cases hv : t.value with
     | nil =>
